@@ -44,10 +44,13 @@ def parseOp : List String → Option Op
 def hex64 (n : UInt64) : String :=
   String.ofList ((List.range 16).map fun i => hexDigit ((n.toNat >>> (4 * (15 - i))) % 16))
 
-def showShown : Shown → String
-  | .none => "-"
-  | .hex b => hexOfBytes b
-  | .digest n h => s!"#{n}:{hex64 h}"
+/-- the `:`-separated parts of a shown byte string: `-`, hex bytes, or `#<n>` and the 16 hex digits of the digest -/
+def shownParts : Shown → List String
+  | .none => ["-"]
+  | .hex b => [hexOfBytes b]
+  | .digest n h => ["#" ++ toString n, hex64 h]
+
+def showShown (sh : Shown) : String := ":".intercalate (shownParts sh)
 
 def rl2 (r : NetbufRead.R) : String :=
   let p := match r.pending with
@@ -71,23 +74,44 @@ def failName : Fail → String
   | .contract => "model-contract"
   | .fuel => "model-fuel"
 
-def showRec : CbRec → String
-  | .succ a (some sh) => s!"0:{a}:{showShown sh}"
-  | .succ a none => s!"0:{a}:model-oob"
-  | .status v => toString v
+/-- the `:`-separated fields of one callback record: `0:<a>:<shown>` or a status -/
+def recParts : CbRec → List String
+  | .succ a (some sh) => "0" :: toString a :: shownParts sh
+  | .succ a none => ["0", toString a, "model-oob"]
+  | .status v => [toString v]
 
-def render : Out → String
-  | .failed f => failName f
-  | .badOp => "bad-op"
-  | .contract => "contract"
-  | .ok => "ok"
-  | .okR r => s!"ok | {rl2 r}"
-  | .okW w => s!"ok | {wl2 w}"
-  | .peek n sh r => s!"peek {n} {showShown sh} | {rl2 r}"
-  | .okN n r => s!"ok {n} | {rl2 r}"
-  | .spin recs fails len sh used r w =>
-      let rs := if recs.isEmpty then "-" else ",".intercalate (recs.map showRec)
-      s!"spin r={rs} f={fails} peer={len}:{showShown sh} sa={used} | {rl2 r} ; {wl2 w}"
+def showRec (r : CbRec) : String := ":".intercalate (recParts r)
+
+/-- the value of `r=`: the records separated by `,`, `-` if there are none -/
+def recsStr (recs : List CbRec) : String :=
+  if recs.isEmpty then "-" else ",".intercalate (recs.map showRec)
+
+/-- one `key=value` token -/
+def kvTok (k v : String) : String := k ++ "=" ++ v
+
+/-- **the tokens of the L1 part** of a line (what the monitor reads: `Proofs/NetbufAns.lean` proves
+`Netbufmon.parseAns (l1Toks o) = o.ans` for every output whose records are readable) -/
+def l1Toks : Out → List String
+  | .failed f => [failName f]
+  | .badOp => ["bad-op"]
+  | .contract => ["contract"]
+  | .ok | .okR _ | .okW _ => ["ok"]
+  | .peek n sh _ => ["peek", toString n, showShown sh]
+  | .okN n _ => ["ok", toString n]
+  | .spin recs fails len sh used _ _ =>
+      ["spin", kvTok "r" (recsStr recs), kvTok "f" (toString fails),
+       kvTok "peer" (":".intercalate (toString len :: shownParts sh)), kvTok "sa" (toString used)]
+
+/-- the L2 part of a line (after ` | `), if it has one -/
+def l2Str : Out → Option String
+  | .failed _ | .badOp | .contract | .ok => none
+  | .okR r | .peek _ _ r | .okN _ r => some (rl2 r)
+  | .okW w => some (wl2 w)
+  | .spin _ _ _ _ _ r w => some s!"{rl2 r} ; {wl2 w}"
+
+/-- the printed line: the L1 tokens joined by single spaces, then ` | ` and the L2 part -/
+def render (o : Out) : String :=
+  " ".intercalate (l1Toks o) ++ (match l2Str o with | some s => " | " ++ s | none => "")
 
 def step (s : NetbufStep.St) (toks : List String) : NetbufStep.St × String :=
   match parseOp toks with
